@@ -167,6 +167,12 @@ def gen(repo, rel, ns, int_consts, byte_consts, packed, funcs, ctrl_write_impl):
         raise exlib.ExtractError("cannot evaluate the read size limit %s in %s: %r" % (m.group(1).strip(), rel, ex))
     s += "/-- `read_impl` rejects (decompressed) payloads longer than `%s` -/\n" % m.group(1).strip()
     s += "def READ_PAYLOAD_LIMIT : Nat := %d\n\n" % lim
+    # the buffer size the doc comment of `Packet::read` asks for (the code asserts MAX_PACKETSIZE)
+    m = re.search(r"`buffer` needs to have at least size `(\w+)`\.\s*\n\s*pub fn read<", raw)
+    if not m or m.group(1) not in env:
+        raise exlib.ExtractError("documented buffer size of Packet::read not found in %s" % rel)
+    s += "/-- the buffer size the doc comment of `Packet::read` requires: `%s` -/\n" % m.group(1)
+    s += "def READ_BUFFER_DOCUMENTED : Nat := %d\n\n" % env[m.group(1)]
     # `impl ControlPacket { fn write }`
     body = exlib.fn_body(impl_body(src, "ControlPacket", rel), "write", 0, "%s impl ControlPacket" % rel)
     s += "/-- integer literals of `ControlPacket::write` in %s -/\n" % rel
